@@ -45,6 +45,10 @@ pub enum FTy {
     GenericOptU8,
     /// harness type with a nil-aware custom codec via encode_with / decode_with / is_nil / nil / cbor_len
     NilU8Fns,
+    /// same functions, attributes given in other orders / split over two attributes (the order must not matter)
+    NilU8FnsB,
+    NilU8FnsC,
+    NilU8FnsD,
     /// same type via `with = "module"` + `has_nil`
     NilU8With,
     /// harness type that encodes as an indefinite-length array of u8
@@ -169,7 +173,7 @@ impl GenVal {
 impl FTy {
     /// Can the field be absent (its type has a nil value)?
     pub fn nilable(&self) -> bool {
-        matches!(self, FTy::OptU8 | FTy::OptStr | FTy::OptBytesRef | FTy::OptNested(_) | FTy::GenericOptU8 | FTy::NilU8Fns | FTy::NilU8With | FTy::OptIndefArr)
+        matches!(self, FTy::OptU8 | FTy::OptStr | FTy::OptBytesRef | FTy::OptNested(_) | FTy::GenericOptU8 | FTy::NilU8Fns | FTy::NilU8FnsB | FTy::NilU8FnsC | FTy::NilU8FnsD | FTy::NilU8With | FTy::OptIndefArr)
     }
     pub fn has_lifetime(&self, all: &[Schema]) -> bool {
         match self {
@@ -215,7 +219,7 @@ pub fn field_values(ty: &FTy, all: &[Schema], salt: u8) -> Vec<GenVal> {
     let d = 1 + (salt % 20);
     match ty {
         FTy::U8 | FTy::GenericU8 => vec![GenVal::U8(d), GenVal::U8(0), GenVal::U8(23), GenVal::U8(24), GenVal::U8(255)],
-        FTy::OptU8 | FTy::GenericOptU8 | FTy::NilU8Fns | FTy::NilU8With => vec![GenVal::some(GenVal::U8(d)), GenVal::none(), GenVal::some(GenVal::U8(24)), GenVal::some(GenVal::U8(255))],
+        FTy::OptU8 | FTy::GenericOptU8 | FTy::NilU8Fns | FTy::NilU8FnsB | FTy::NilU8FnsC | FTy::NilU8FnsD | FTy::NilU8With => vec![GenVal::some(GenVal::U8(d)), GenVal::none(), GenVal::some(GenVal::U8(24)), GenVal::some(GenVal::U8(255))],
         FTy::Str | FTy::StrRef | FTy::CowStr => vec![GenVal::Str(format!("s{}", d)), GenVal::Str(String::new()), GenVal::Str("x".repeat(24))],
         FTy::OptStr => vec![GenVal::some(GenVal::Str(format!("s{}", d))), GenVal::none(), GenVal::some(GenVal::Str(String::new()))],
         FTy::BytesVec => vec![GenVal::Bytes(vec![d]), GenVal::Bytes(vec![]), GenVal::Bytes(vec![7; 24])],
@@ -338,7 +342,7 @@ fn encode_field_value(ty: &FTy, all: &[Schema], v: &GenVal) -> Item {
     match (ty, v) {
         (_, GenVal::Opt(None)) => NULL,
         (FTy::U8 | FTy::GenericU8, GenVal::U8(x)) => Item::uint(*x as u64),
-        (FTy::OptU8 | FTy::GenericOptU8 | FTy::NilU8Fns | FTy::NilU8With, GenVal::Opt(Some(x))) => Item::uint(x.u8() as u64),
+        (FTy::OptU8 | FTy::GenericOptU8 | FTy::NilU8Fns | FTy::NilU8FnsB | FTy::NilU8FnsC | FTy::NilU8FnsD | FTy::NilU8With, GenVal::Opt(Some(x))) => Item::uint(x.u8() as u64),
         (FTy::Str | FTy::StrRef | FTy::CowStr, GenVal::Str(s)) => Item::text(s),
         (FTy::OptStr, GenVal::Opt(Some(x))) => Item::text(x.str()),
         (FTy::BytesVec, GenVal::Bytes(b)) => Item::bytes(b),
@@ -489,7 +493,7 @@ fn decode_field_value(ty: &FTy, all: &[Schema], i: &Item) -> R {
         FTy::IndefArr => u8_array_of(i).map(GenVal::Bytes),
         FTy::Nested(j) => decode_inner(&all[*j], all, i),
         _ if *i == NULL => Ok(GenVal::none()),
-        FTy::OptU8 | FTy::GenericOptU8 | FTy::NilU8Fns | FTy::NilU8With => opt(u8_of(i).map(GenVal::U8)),
+        FTy::OptU8 | FTy::GenericOptU8 | FTy::NilU8Fns | FTy::NilU8FnsB | FTy::NilU8FnsC | FTy::NilU8FnsD | FTy::NilU8With => opt(u8_of(i).map(GenVal::U8)),
         FTy::OptStr => opt(text_of(i).map(GenVal::Str)),
         FTy::OptBytesRef => opt(bytes_of(i).map(GenVal::Bytes)),
         FTy::OptIndefArr => opt(u8_array_of(i).map(GenVal::Bytes)),
@@ -802,6 +806,33 @@ fn enumerate_schemas_base(thorough: bool) -> Vec<Schema> {
         b.st("G-tag", Shape::Named, enc, None, vec![fld(0, FTy::U8), f1, fld(2, FTy::OptU8)]);
     }
 
+    // ---- G-twin: the derive macros have separate code paths for named structs, tuple structs and enum
+    // variants (named and tuple); every tagged layout and every mixed-optional layout is replicated in
+    // all of them
+    {
+        let snapshot: Vec<StructS> = b
+            .all
+            .iter()
+            .filter_map(|s| match (&s.kind, s.family) {
+                (Kind::Struct(st), "G-tag") if st.shape == Shape::Named => Some(st.clone()),
+                (Kind::Struct(st), "G-idx") if st.shape == Shape::Named && st.fields.len() >= 2 && st.fields.iter().any(|f| f.ty == FTy::OptU8) && st.fields.iter().all(|f| f.idx < 23) && st.fields.windows(2).all(|w| w[0].idx < w[1].idx) => Some(st.clone()),
+                _ => None,
+            })
+            .collect();
+        for st in snapshot {
+            if st.tag.is_some() || st.fields.iter().any(|f| f.tag.is_some()) {
+                b.st("G-twin", Shape::Tuple, st.enc, st.tag, st.fields.clone());
+            }
+            for shape in [Shape::Named, Shape::Tuple] {
+                let variants = vec![
+                    VariantS { idx: 0, shape, enc: st.enc, tag: st.tag, fields: st.fields.clone() },
+                    VariantS { idx: 1, shape: Shape::Unit, enc: None, tag: None, fields: vec![] },
+                ];
+                b.push("G-twin", false, Kind::Enum(EnumS { enc: None, tag: None, index_only: false, variants }));
+            }
+        }
+    }
+
     // ---- G-enum
     for eenc in ENCS {
         for over in ENCS {
@@ -836,7 +867,7 @@ fn enumerate_schemas_base(thorough: bool) -> Vec<Schema> {
 
     // ---- G-type: every field type in every container position
     let tys: Vec<FTy> = vec![
-        FTy::U8, FTy::OptU8, FTy::Str, FTy::OptStr, FTy::StrRef, FTy::CowStr, FTy::BytesVec, FTy::OptBytesRef, FTy::GenericU8, FTy::GenericOptU8, FTy::NilU8Fns, FTy::NilU8With, FTy::IndefArr, FTy::OptIndefArr,
+        FTy::U8, FTy::OptU8, FTy::Str, FTy::OptStr, FTy::StrRef, FTy::CowStr, FTy::BytesVec, FTy::OptBytesRef, FTy::GenericU8, FTy::GenericOptU8, FTy::NilU8Fns, FTy::NilU8FnsB, FTy::NilU8FnsC, FTy::NilU8FnsD, FTy::NilU8With, FTy::IndefArr, FTy::OptIndefArr,
         FTy::Nested(h_arr), FTy::OptNested(h_arr), FTy::Nested(h_map), FTy::OptNested(h_map), FTy::Nested(h_enum), FTy::OptNested(h_enum), FTy::Nested(h_ionly), FTy::OptNested(h_ionly), FTy::Nested(h_life), FTy::OptNested(h_tagged),
         FTy::OptNested(h_allopt_map),
     ];
@@ -924,7 +955,7 @@ fn ty_src(ty: &FTy, all: &[Schema]) -> String {
         FTy::Nested(j) => type_use(&all[*j], all, "'a"),
         FTy::OptNested(j) => format!("Option<{}>", type_use(&all[*j], all, "'a")),
         FTy::GenericU8 | FTy::GenericOptU8 => "G".into(),
-        FTy::NilU8Fns | FTy::NilU8With => "derive_rt::NilU8".into(),
+        FTy::NilU8Fns | FTy::NilU8FnsB | FTy::NilU8FnsC | FTy::NilU8FnsD | FTy::NilU8With => "derive_rt::NilU8".into(),
         FTy::IndefArr => "derive_rt::IndefArr".into(),
         FTy::OptIndefArr => "Option<derive_rt::IndefArr>".into(),
     }
@@ -957,6 +988,9 @@ fn field_attrs(f: &FieldS) -> String {
     match f.ty {
         FTy::BytesVec | FTy::OptBytesRef => a.push_str("#[cbor(with = \"minicbor::bytes\")] "),
         FTy::NilU8Fns => a.push_str("#[cbor(encode_with = \"derive_rt::nilu8::encode\", decode_with = \"derive_rt::nilu8::decode\", is_nil = \"derive_rt::nilu8::is_nil\", nil = \"derive_rt::nilu8::nil\", cbor_len = \"derive_rt::nilu8::cbor_len\")] "),
+        FTy::NilU8FnsB => a.push_str("#[cbor(encode_with = \"derive_rt::nilu8::encode\", is_nil = \"derive_rt::nilu8::is_nil\", cbor_len = \"derive_rt::nilu8::cbor_len\", decode_with = \"derive_rt::nilu8::decode\", nil = \"derive_rt::nilu8::nil\")] "),
+        FTy::NilU8FnsC => a.push_str("#[cbor(decode_with = \"derive_rt::nilu8::decode\", nil = \"derive_rt::nilu8::nil\")] #[cbor(encode_with = \"derive_rt::nilu8::encode\", is_nil = \"derive_rt::nilu8::is_nil\")] #[cbor(cbor_len = \"derive_rt::nilu8::cbor_len\")] "),
+        FTy::NilU8FnsD => a.push_str("#[cbor(is_nil = \"derive_rt::nilu8::is_nil\")] #[cbor(encode_with = \"derive_rt::nilu8::encode\")] #[cbor(decode_with = \"derive_rt::nilu8::decode\", nil = \"derive_rt::nilu8::nil\", cbor_len = \"derive_rt::nilu8::cbor_len\")] "),
         FTy::NilU8With => a.push_str("#[cbor(with = \"derive_rt::nilu8\", has_nil)] "),
         _ => {}
     }
@@ -987,7 +1021,7 @@ fn make_expr(f: &FieldS, x: &str) -> String {
         FTy::OptBytesRef => format!("{}.opt().map(|y| y.bytes())", x),
         FTy::Nested(j) => format!("make_{}(&{})", j, x),
         FTy::OptNested(j) => format!("{}.opt().map(|y| make_{}(y))", x, j),
-        FTy::NilU8Fns | FTy::NilU8With => format!("derive_rt::NilU8({}.opt().map(|y| y.u8()))", x),
+        FTy::NilU8Fns | FTy::NilU8FnsB | FTy::NilU8FnsC | FTy::NilU8FnsD | FTy::NilU8With => format!("derive_rt::NilU8({}.opt().map(|y| y.u8()))", x),
         FTy::IndefArr => format!("derive_rt::IndefArr({}.bytes().to_vec())", x),
         FTy::OptIndefArr => format!("{}.opt().map(|y| derive_rt::IndefArr(y.bytes().to_vec()))", x),
     }
@@ -1007,7 +1041,7 @@ fn view_expr(f: &FieldS, t: &str) -> String {
         FTy::OptBytesRef => format!("GenVal::Opt({}.map(|y| Box::new(GenVal::Bytes(y.to_vec()))))", t),
         FTy::Nested(j) => format!("view_{}({})", j, t),
         FTy::OptNested(j) => format!("GenVal::Opt({}.as_ref().map(|y| Box::new(view_{}(y))))", t, j),
-        FTy::NilU8Fns | FTy::NilU8With => format!("GenVal::Opt({}.0.map(|y| Box::new(GenVal::U8(y))))", t),
+        FTy::NilU8Fns | FTy::NilU8FnsB | FTy::NilU8FnsC | FTy::NilU8FnsD | FTy::NilU8With => format!("GenVal::Opt({}.0.map(|y| Box::new(GenVal::U8(y))))", t),
         FTy::IndefArr => format!("GenVal::Bytes({}.0.clone())", t),
         FTy::OptIndefArr => format!("GenVal::Opt({}.as_ref().map(|y| Box::new(GenVal::Bytes(y.0.clone()))))", t),
     }
